@@ -10,6 +10,7 @@ import (
 	"go/constant"
 	"go/token"
 	"go/types"
+	"os"
 	"sort"
 	"strings"
 
@@ -273,6 +274,13 @@ func (w *WireNil) substToCallee(callee *ssa.Function, site ssa.CallInstruction, 
 }
 
 func (w *WireNil) condFacts(cond ssa.Value, takenTrue bool) []string {
+	return w.condFactsDepth(cond, takenTrue, 0)
+}
+
+func (w *WireNil) condFactsDepth(cond ssa.Value, takenTrue bool, depth int) []string {
+	if depth > 4 {
+		return nil
+	}
 	var out []string
 	c, pol := normCond(cond, takenTrue)
 	if call, isCall := c.(*ssa.Call); isCall && isBoolType(call.Type()) {
@@ -287,6 +295,43 @@ func (w *WireNil) condFacts(cond ssa.Value, takenTrue bool) []string {
 					out = append(out, f[:3]+cp)
 				}
 			}
+		}
+		return out
+	}
+	if ph, isPhi := c.(*ssa.Phi); isPhi && isBoolType(ph.Type()) {
+		// a condition computed into a named boolean (a && b, a || b): what holds on every edge that can
+		// deliver the taken value — the facts of the edge's source block plus those of the edge's own condition
+		var acc wfact
+		for i, e := range ph.Edges {
+			if i >= len(ph.Block().Preds) {
+				break
+			}
+			if k, isK := constBool(e); isK && k != pol {
+				continue
+			}
+			f := wfact{}
+			for k := range w.blockFacts[ph.Block().Preds[i]] {
+				f[k] = true
+			}
+			if _, isK := constBool(e); !isK {
+				if _, nested := e.(*ssa.Phi); !nested || e != ssa.Value(ph) {
+					for _, k := range w.condFactsDepth(e, pol, depth+1) {
+						f[k] = true
+					}
+				}
+			}
+			if acc == nil {
+				acc = f
+			} else {
+				for k := range acc {
+					if !f[k] {
+						delete(acc, k)
+					}
+				}
+			}
+		}
+		for k := range acc {
+			out = append(out, k)
 		}
 		return out
 	}
@@ -832,6 +877,13 @@ func RunWireNil(p *Prog, root *ssa.Function, cmdFunctionNonNil bool) *WireNil {
 							anyTainted = true
 						}
 					}
+					// an object with a part that is nil by construction (an address whose device is not known yet) is
+					// as relevant as wire data: its callers must have tested that part
+					for _, a := range args {
+						if w.sn != nil && w.sn.hasDerivedField(a.Type()) {
+							anyTainted = true
+						}
+					}
 					for _, c := range w.callees(ci) {
 						for i, a := range args {
 							if i >= len(c.Params) {
@@ -870,6 +922,58 @@ func RunWireNil(p *Prog, root *ssa.Function, cmdFunctionNonNil bool) *WireNil {
 				}
 			}
 		}
+		// a closure starts with what is known about its captured variables where it is created (the creating
+		// function may itself lie outside the inbound tree: its facts are computed, nothing in it is reported)
+		creators := append([]*ssa.Function{}, fns...)
+		for _, f := range fns {
+			if par := f.Parent(); par != nil && !w.reach[par] && par.Blocks != nil {
+				dup := false
+				for _, c := range creators {
+					if c == par {
+						dup = true
+					}
+				}
+				if !dup {
+					w.computeFacts(par)
+					creators = append(creators, par)
+				}
+			}
+		}
+		for _, f := range creators {
+			for _, b := range f.Blocks {
+				for _, ins := range b.Instrs {
+					mc, ok := ins.(*ssa.MakeClosure)
+					if !ok {
+						continue
+					}
+					anon, ok := mc.Fn.(*ssa.Function)
+					if !ok {
+						continue
+					}
+					tf := wfact{}
+					for i, bnd := range mc.Bindings {
+						if i >= len(anon.FreeVars) {
+							break
+						}
+						src := wpath(bnd, 0)
+						dst := "fv:" + anon.FreeVars[i].Name()
+						for k := range w.factsAt[ins] {
+							pth := k[3:]
+							if pth == src || strings.HasPrefix(pth, src+".") || strings.HasPrefix(pth, src+"[") {
+								tf[k[:3]+dst+pth[len(src):]] = true
+							}
+						}
+					}
+					if old, ok := newEntry[anon]; !ok {
+						newEntry[anon] = tf
+					} else {
+						for k := range tf {
+							old[k] = true
+						}
+					}
+				}
+			}
+		}
 		for f, nf := range newEntry {
 			if len(nf) != len(w.entryFacts[f]) {
 				ch = true
@@ -878,6 +982,13 @@ func RunWireNil(p *Prog, root *ssa.Function, cmdFunctionNonNil bool) *WireNil {
 		}
 		if !ch {
 			break
+		}
+	}
+	if dbg := os.Getenv("SPINEDEBUG_E5"); dbg != "" {
+		for _, f := range fns {
+			if strings.Contains(f.String(), dbg) {
+				fmt.Fprintf(os.Stderr, "E5 %s entry=%v\n", f, w.entryFacts[f])
+			}
 		}
 	}
 	for _, f := range fns {
